@@ -24,7 +24,7 @@ MIN_COUNTERS = {'ops_compared': 1000, 'invariant_evals': 1000,
                 'score_histories': 5, 'atexit_histories': 3, 'clock_histories': 40,
                 'clock_wakeups_compared': 100, 'nrt_clock_histories': 300,
                 'clock_histories_moved_after_self_reschedule': 20,
-                'score_identical_bundles': 20}
+                'score_identical_bundles': 20, 'ppar_histories': 300}
 
 
 def plan(tier, seed):
@@ -53,6 +53,10 @@ def plan(tier, seed):
                        'clock': ck, 'nrt': True, 'first_case': 0,
                        'n': 400 if tier == 'quick' else 60000,
                        'secs': 40 if tier == 'quick' else 560, 'hard_timeout': 700})
+    # parallel pattern streams (Ppar keeps its child streams in the queue)
+    for p, (f, n) in enumerate(split(600 if tier == 'quick' else 120000, 2)):
+        shards.append({'name': f'ppar{p}', 'mode': 'nrt', 'kind': 'ppar',
+                       'first_case': f, 'n': n, 'secs': secs, 'hard_timeout': secs + 120})
     # exit actions: one shutdown per process
     for p in range(4 if tier == 'quick' else 16):
         shards.append({'name': f'atexit{p}', 'mode': 'nrt', 'kind': 'atexit',
@@ -299,6 +303,8 @@ def run_shard(spec, acc):
         acc.counters['invariant_evals'] = _inv_evals[0]
     elif kind == 'atexit':
         run_atexit(spec, acc)
+    elif kind == 'ppar':
+        run_ppar(spec, acc)
     elif kind == 'clockuser':
         run_clockuser(spec, acc)
     else:
@@ -463,6 +469,104 @@ def run_clockuser(spec, acc):
                         'wakeups': exp})
         if ck == 'TempoClock' and not nrt:
             clock.stop()
+
+
+def run_ppar(spec, acc):
+    """The queue through another user: Ppar.  Children are Pbinds with an id and
+    a finite list of durations from a small dyadic set (many ties, zero
+    durations), also nested Ppars.  The events come out in non-decreasing time,
+    equal times in the order in which the children were (re-)queued; every
+    child event exactly once.  Times are rebuilt from the deltas of ALL output
+    events (rests included)."""
+    from sc3.base import stream as stm
+    from sc3.seq.patterns.eventpatterns import Pbind, Ppar
+    from sc3.seq.patterns.listpatterns import Pseq
+    from sc3.seq import event as evt
+    DURS = [0, 0.25, 0.25, 0.5, 0.5, 1, 1.5]
+
+    def gen(rng, depth, ids):
+        kids = []
+        for _ in range(rng.randint(1, 4)):
+            if depth < 2 and rng.random() < 0.2:
+                kids.append(gen(rng, depth + 1, ids))
+            else:
+                k = len(ids)
+                ids.append(k)
+                kids.append(('bind', k, [rng.choice(DURS) for _ in range(rng.randint(1, 5))]))
+        return ('par', kids)
+
+    def build(node):
+        if node[0] == 'bind':
+            return Pbind({'id': node[1], 'dur': Pseq(list(node[2]))})
+        return Ppar(*[build(k) for k in node[1]])
+
+    def model(node):
+        """The node as a stream of events [(id | None for a rest, delta)].  A
+        Ppar merges its children by time through the queue model (equal times:
+        the child queued first), re-queues a child at now + its event's delta,
+        stamps every event with the gap to the next one and fills the gap left
+        by a child that ended with a rest."""
+        if node[0] == 'bind':
+            return [(node[1], d) for d in node[2]]
+        kids = [model(k) for k in node[1]]
+        m = Model()
+        pos = [0] * len(kids)
+        for i in range(len(kids)):
+            m.add(0.0, i)
+        out = []
+        now = 0.0
+        while not m.empty():
+            t, i = m.pop()
+            if pos[i] < len(kids[i]):
+                cid, d = kids[i][pos[i]]
+                pos[i] += 1
+                m.add(now + d, i)
+                nxt = m.peek()[0]
+                out.append((cid, nxt - now))
+                now = nxt
+            elif not m.empty():
+                nxt = m.peek()[0]
+                out.append((None, nxt - now))       # rest until the next child
+                now = nxt
+        return out
+
+    for i in iter_cases(spec):
+        rng = case_rng(spec['seed'], 'C09', 'ppar', i)
+        ids = []
+        tree = gen(rng, 0, ids)
+        exp, t = [], 0.0
+        for c, d in model(tree):
+            if c is not None:
+                exp.append((c, t))
+            t += d
+        got, t, guard = [], 0.0, 0
+        try:
+            s = stm.stream(build(tree))
+            while guard < 400:
+                guard += 1
+                e = s.next(evt.event())
+                if 'id' in e:
+                    got.append((e['id'], t))
+                t += float(e['delta'])
+        except stm.StopStream:
+            pass
+        except Exception as e:      # noqa
+            acc.violation(f'C09/ppar-raises/{type(e).__name__}',
+                          {'case': i, 'tree': tree, 'tb': short_tb(e)})
+            continue
+        acc.count('ppar_histories')
+        acc.count('ppar_events_compared', len(exp))
+        ties = len(exp) - len({t for _, t in exp})
+        acc.case(h64(repr(tree)), nontrivial=ties > 0)
+        if got != exp:
+            what = 'order' if sorted(got) == sorted(exp) else \
+                'times' if [c for c, _ in got] == [c for c, _ in exp] else \
+                'events-lost-or-duplicated' if sorted(c for c, _ in got) != sorted(
+                    c for c, _ in exp) else 'order-and-times'
+            acc.violation(f'C09/ppar/{what}', {'case': i, 'tree': tree, 'expected': exp[:40],
+                                               'got': got[:40]})
+        elif acc.want_sample() and ties and len(exp) < 12:
+            acc.sample({'case': i, 'ppar_tree': tree, 'events': exp})
 
 
 def run_atexit(spec, acc):
